@@ -207,6 +207,44 @@ Example C13_cd_definition_nonvacuous :
   map shown (cd_col (X := EQx) [Fin 0; Fin 1; Fin 2; Fin 4]) = [None; Some (1 # 2); Some (3 # 4); None]%Q.
 Proof. vm_compute. reflexivity. Qed.
 
+(* ---- "for mnn and 2nn these are the values left after greedily removing the most crowded point and re-computing its
+   neighbours": the pure-Python engine (misc/mnn.py) on every finite front without duplicate points, every n_remove.
+   is_def H d: every point p of H that is not an extreme carries the product of the squared normalised distances to
+   M DISTINCT OTHER POINTS OF H, listed nearest first, such that every further point of H is at least as far
+   (nn_product: its M nearest neighbours among the remaining points H); extremes carry +inf.
+   greedy ... s H d Hf df: s times, a remaining point of smallest value was removed, the removed points kept their
+   value and the values of the others satisfy is_def with respect to the new remaining set.  (M = 2 for 2nn, else the
+   number of objectives; D0 = matrix of squared distances of the range-normalised front.) ---- *)
+From Coq Require Import Lia.
+From PV Require Import Proofs.MonoP Proofs.MnnDefP.
+Theorem C13_mnn_fallback_matches_definition :
+  forall (twonn : bool) (F : list (list eq)) m (n_remove : Z),
+    fin_matrix F m -> (2 <= m)%nat -> length (hd [] F) = m -> ((if twonn then 2 else m) < length F)%nat -> no_duplicates F m ->
+    let n := length F in
+    let M := if twonn then 2%nat else m in
+    let ext := extremes_of (X := EQx) F in
+    let Xn := normalize (X := EQx) true F in
+    let D0 := map (fun a => map (fun b => sqdist (X := EQx) a b) Xn) Xn in
+    let d0 := set_inf (X := EQx) ext (map (mnn_row (X := EQx) M) D0) in
+    is_def M ext D0 (seq 0 n) d0 /\
+    greedy n M ext D0 (clamp_remove n_remove n m - 1) (seq 0 n) d0 (mnn_remaining twonn F n_remove) (fallback_mnn (X := EQx) twonn F n_remove) /\
+    is_def M ext D0 (mnn_remaining twonn F n_remove) (fallback_mnn (X := EQx) twonn F n_remove).
+Proof. exact fallback_mnn_is_greedy_nearest_neighbour. Qed.
+Print Assumptions C13_mnn_fallback_matches_definition.
+
+(* non-vacuity: a 6-point front with 3 objectives meets the hypotheses (3 removals: the loop runs twice) *)
+Definition W6 : list (list eq) :=
+  [[Fin 0; Fin 5; Fin 3]; [Fin 1; Fin 4; Fin 1]; [Fin 2; Fin 2; Fin 4]; [Fin 3; Fin 3; Fin 0]; [Fin 4; Fin 1; Fin 2]; [Fin 5; Fin 0; Fin 5]].
+Example C13_mnn_definition_nonvacuous :
+  fin_matrix W6 3 /\ no_duplicates W6 3 /\ (3 < length W6)%nat /\ mnn_remaining false W6 3%Z = [0; 2; 3; 5]%nat /\
+  map shown (fallback_mnn (X := EQx) false W6 3%Z) = [None; Some (504 # 15625); Some (3528 # 15625); None; Some (891 # 15625); None]%Q.
+Proof.
+  split; [repeat constructor; eexists; reflexivity|]. split; [|split; [cbn; lia|split; vm_compute; reflexivity]].
+  intros p q Hp Hq Hne. cbn in Hp, Hq. exists 0%nat.
+  destruct p as [|[|[|[|[|[|p]]]]]]; try lia; destruct q as [|[|[|[|[|[|q]]]]]]; try lia; try congruence;
+    cbn; eexists; eexists; (split; [lia|split; [reflexivity|split; [reflexivity|intro Hx; discriminate Hx]]]).
+Qed.
+
 (* ---- known finding metrics/dup-eps-absolute: the metrics are defined on range-normalised objectives, yet the duplicate filter of
    FunctionalDiversity._do compares raw distances with the absolute tolerance 1e-32.  The same front in two units: with the
    objectives multiplied by 2^-120 the two boundary points other than the first are filtered as "duplicates" and get 0
